@@ -7,6 +7,16 @@ import re2smt, common
 ob = sys.argv[1]
 lits, specname, L = common.REGEX_OBLIGATIONS[ob]
 table = {c: (p, v) for c, p, v in common.regex_literals()}
+if len(sys.argv) > 3 and sys.argv[2] == '--replay':
+    # re-evaluate a stored counterexample: literal (python matcher over the CURRENT source literal) vs grammar (z3 evaluation)
+    import z3
+    bs = bytes.fromhex(sys.argv[3])
+    alts = [re2smt.parse(re2smt.extract(*table[l])) for l in lits]
+    impl = any(re2smt.match_py(a, bs) for a in alts)
+    s = [z3.BitVecVal(bs[i] if i < len(bs) else 0, 8) for i in range(L)]
+    spec = z3.is_true(z3.simplify(getattr(common, specname)(z3, s, z3.BitVecVal(len(bs), 16), L)))
+    print('bytes=%r literal_accepts=%s grammar_accepts=%s %s' % (bs, impl, spec, 'DIFFERS' if impl != spec else 'agree'))
+    sys.exit(0)
 try:
     pats = [re2smt.extract(*table[l]) for l in lits]
     alts = [re2smt.parse(p) for p in pats]
